@@ -16,6 +16,7 @@ _cache = {}
 
 # units whose obligations have committed replay scripts (`<script> <compiler-binary>`: exit 1 = the defect shows on the real code)
 COMPILER_REPLAYS = {
+    "u_importname": ["replay/c02/deep_import.sh"],
     "u_anf": ["replay/c09/anf_order.sh"],
     "u_diagord": ["replay/c13/missing_methods/run.sh", "replay/c13/unknown_fields/run.sh"],
     "u_occurs": ["replay/c04/occurs/run.sh"],
